@@ -27,7 +27,21 @@ let z_of_decimal (s : string) : z =
   let digits = if neg then String.sub s 1 (String.length s - 1) else s in
   if String.length digits = 0 then failwith "empty int";
   let v =
-    if String.length digits <= 18 then z_of_int (int_of_string digits)
+    if String.length digits > 2 && digits.[0] = '0' && (digits.[1] = 'x' || digits.[1] = 'X') then begin
+      (* hexadecimal of any length: the printers use it for big integers *)
+      let acc = ref Z0 in
+      String.iteri (fun i c ->
+        if i >= 2 then begin
+          let d = match c with
+            | '0'..'9' -> Char.code c - 48
+            | 'a'..'f' -> Char.code c - 87
+            | 'A'..'F' -> Char.code c - 55
+            | _ -> failwith "bad hex int" in
+          acc := Z.add (Z.mul !acc (z_of_int 16)) (z_of_int d)
+        end) digits;
+      !acc
+    end
+    else if String.length digits <= 18 then z_of_int (int_of_string digits)
     else begin
       let acc = ref Z0 in
       String.iter (fun c ->
@@ -145,8 +159,9 @@ let parse_num (a : string) : float pynum =
   | _ -> raise (Parse ("num " ^ a))
 
 let parse_pos (a : string) : positive =
-  let n = int_of_string a in
-  if n < 1 then raise (Parse "positive"); pos_of_int n
+  match (try z_of_decimal a with Failure _ -> raise (Parse ("positive " ^ a))) with
+  | Zpos p -> p
+  | _ -> raise (Parse "positive")
 
 let rec parse_expr (ts : tok list) : e * tok list =
   match ts with
